@@ -52,6 +52,8 @@ pub fn cfgs_c03() -> Vec<SrvCfg> {
         a.push(Act::PutImm { src: 0, v: 0, tok: t });
     }
     a.push(Act::PutImm { src: 0, v: 2, tok: Tok::Empty });
+    a.push(Act::PutImm { src: 0, v: 6, tok: Tok::Fresh });
+    a.push(Act::PutImm { src: 2, v: 7, tok: Tok::Fresh });
     for d in TICKS {
         a.push(Act::Tick(d));
     }
@@ -202,7 +204,17 @@ pub fn cfgs_c15() -> Vec<SrvCfg> {
     for d in [4 * MIN + 59 * SEC, 5 * MIN + SEC, 2 * SEC] {
         a.push(Act::Tick(d));
     }
-    vec![base("c15-tokens", a, p)]
+    // writes only: nobody asks for a token while the clock runs (rotation must not depend on it)
+    let b = vec![
+        Act::PutImm { src: 0, v: 0, tok: Tok::Fresh },
+        Act::Announce { src: 2, ih: 0, port: 5, implied: None, tok: Tok::Fresh },
+        Act::PutImm { src: 1, v: 1, tok: Tok::Oldest },
+        Act::Other { src: 3, find_node: false },
+        Act::Other { src: 0, find_node: true },
+        Act::Tick(4 * MIN + 59 * SEC),
+        Act::Tick(2 * SEC),
+    ];
+    vec![base("c15-tokens", a, p), base("c15-writes-only", b, p)]
 }
 
 pub fn cfgs_c20() -> Vec<SrvCfg> {
@@ -363,6 +375,7 @@ pub fn run_cfgs_bound(cfgs: Vec<SrvCfg>, depth: usize, max_states: usize, replay
         let name = cfg.name;
         let n_actions = cfg.alphabet.len();
         let init = SrvState::new(cfg);
+        let depth = if name == "c15-writes-only" { depth + 4 } else { depth };
         let bfs = Bfs { max_depth: depth, max_states, threads: super::cores(), collect_paths: replay_budget > 0 };
         let mut part = Partial::default();
         let stats = bfs.run(vec![init], &mut part);
@@ -476,7 +489,7 @@ pub fn def_c15() -> CheckDef {
         info: |tier| CheckInfo {
             id: "C15",
             level: "model_checking",
-            rule: format!("Explicit-state BFS (depth {}) over timelines against one real Server: token-yielding gets from IPs a, a' (one low bit away) and b; writes presenting the latest / the oldest remembered own token, another IP's token, a token of another server instance, empty, every single-byte mutation, 3- and 5-byte resizes; clock steps 2 s, 4m59s, 5m01s so that ages 0..15+ min arise with and without intermediate requests (rotation is lazy). Oracle: never-issued-to-this-IP => 203; same IP and age <= 5 min => accepted; requests in every 5-minute period and age > 10 min + 2*largest gap => 203; otherwise either.", if tier.is_quick() { 6 } else { 8 }),
+            rule: format!("Explicit-state BFS (depth {}) over timelines against one real Server: token-yielding gets from IPs a, a' (one low bit away) and b; writes presenting the latest / the oldest remembered own token, another IP's token, a token of another server instance, empty, every single-byte mutation, 3- and 5-byte resizes; clock steps 2 s, 4m59s, 5m01s so that ages 0..15+ min arise with and without intermediate requests (rotation is lazy). Oracle: never-issued-to-this-IP => 203; same IP and age <= 5 min => accepted; requests in every 5-minute period and age > 10 min + largest gap => 203; otherwise either.", if tier.is_quick() { 6 } else { 8 }),
             assumptions: vec!["the 2^32 token values are not enumerated; structure-preserving mutations only".into()],
         },
         shards: |_| 1,
